@@ -46,12 +46,14 @@ DESCRIBE = {
 }
 RULE = ("fault enumeration, EXHAUSTIVE over the fault space of each case: producers {create_cooler ordered=True, "
         "create_cooler ordered=False (mergebuf 2, thorough also max_merge 2), merge_coolers, coarsen_cooler} x destinations "
-        "{new file (mode w and a), new group /x/y in a file holding /a, /b/c, /old, a plain group /g and an unrelated root "
+        "{new file (mode w and a; existing files: mode a, thorough also r+), new group /x/y in a file holding /a, /b/c, /old, a plain group /g and an unrelated root "
         "attribute, existing plain group /g, existing group /old holding an old cooler, group /a/sub nested in a neighbour, "
         "root of that file, root that already is a cooler} x symmetric-upper/square x seeded valid streams of m<=3 (quick) / "
         "m<=4 (thorough) chunks over n<=5 bins (plus fixed corpus streams incl. empty chunks and the empty stream); per "
-        "stream EVERY fault: record with id=n (bin2 only / both), id=-1 (bin1 / bin2), lower-triangle record (symmetric "
-        "mode), duplicate of a record of the same chunk, each at EVERY chunk index and EVERY row position; RuntimeError "
+        "stream EVERY fault: record with id=n (bin2 only / both ids), id=-1 (bin1 / bin2) [thorough: both variants at every "
+        "position; quick: both at position 0 and alternating after], lower-triangle record (symmetric "
+        "mode), duplicate of a record of the same chunk (quick: one record per position, thorough: every record), each at "
+        "EVERY chunk index and EVERY row position; RuntimeError "
         "raised by the iterator before EVERY chunk index 0..m; a count of 2^31 at every record; cross-chunk overflowing "
         "duplicate (unordered); merge/coarsen: aggregation exception / overflow / out-of-range or lower-triangle input "
         "record at every input record, incompatible inputs; and no fault.  validator: ALL chunks of <=3 records over ids "
@@ -192,10 +194,14 @@ def _stream_faults(case, thorough):
     for k, ch in enumerate(chunks):
         for p in range(len(ch) + 1):
             row = ch[p - 1][0] if p > 0 else (ch[0][0] if ch else 0)
-            out.append({"kind": "excess", "chunk": k, "pos": p, "rec": [row, n, 1]})
-            out.append({"kind": "excess", "chunk": k, "pos": p, "rec": [n, n, 1]})
-            out.append({"kind": "neg", "chunk": k, "pos": p, "rec": [-1, row, 1]})
-            out.append({"kind": "neg", "chunk": k, "pos": p, "rec": [row, -1, 1]})
+            # two variants of each out-of-range kind (which id column); quick: both at position 0, alternating after
+            both = thorough or p == 0
+            if both or (p + k) % 2 == 0:
+                out.append({"kind": "excess", "chunk": k, "pos": p, "rec": [row, n, 1]})
+                out.append({"kind": "neg", "chunk": k, "pos": p, "rec": [-1, row, 1]})
+            if both or (p + k) % 2 == 1:
+                out.append({"kind": "excess", "chunk": k, "pos": p, "rec": [n, n, 1]})
+                out.append({"kind": "neg", "chunk": k, "pos": p, "rec": [row, -1, 1]})
             if symm and n >= 2:
                 out.append({"kind": "tril", "chunk": k, "pos": p, "rec": [n - 1, (p + k) % (n - 1), 1]})
             if ch:
